@@ -858,35 +858,7 @@ Section RoundTrip.
     destruct (b_type m) eqn:Et; simpl t_kind; cbv iota; rewrite Hnm; reflexivity.
   Qed.
 
-  (* a printed matcher list, as runes *)
-  Fixpoint jr (ms : list bm) : list (Z * list Z) :=
-    match ms with
-    | [] => []
-    | m :: r => match r with [] => mrunes m | _ => mrunes m ++ asc 44 :: jr r end
-    end.
-
-  Lemma decode_join ms rest : Forall plain ms ->
-    decode_all (join_comma (map (print_b is_space is_print) ms) ++ rest) = jr ms ++ decode_all rest.
-  Proof.
-    induction 1 as [|m r Hm Hr IH]; [reflexivity|].
-    destruct r as [|m' r'].
-    - simpl. apply decode_print, Hm.
-    - change (join_comma (map (print_b is_space is_print) (m :: m' :: r')))
-        with (print_b is_space is_print m ++ [44] ++ join_comma (map (print_b is_space is_print) (m' :: r'))).
-      change (jr (m :: m' :: r')) with (mrunes m ++ asc 44 :: jr (m' :: r')).
-      rewrite <- !app_assoc. rewrite decode_print by exact Hm.
-      rewrite (decode_all_canon_app 44 [44]) by (apply canon_ascii_intro; lia).
-      rewrite IH. reflexivity.
-  Qed.
-
   Definition closer (opn : bool) : list (Z * list Z) := if opn then [asc 125] else [].
-
-  Lemma jr_first m r : exists tl, forall T, jr (m :: r) ++ T = mrunes m ++ tl T.
-  Proof.
-    destruct r as [|m' r'].
-    - exists (fun T => T). reflexivity.
-    - exists (fun T => asc 44 :: jr (m' :: r') ++ T). intros T. simpl. rewrite <- app_assoc. reflexivity.
-  Qed.
 
   Lemma parse_loop_S f st p :
     parse_loop (S f) st p =
@@ -902,44 +874,10 @@ Section RoundTrip.
     pstep SEndOfMatcher (mkP acc opn (mkLx (asc 44 :: X) false)) = Ok (Some SComma, mkP acc opn (mkLx (asc 44 :: X) false)).
   Proof. reflexivity. Qed.
 
-  Lemma step_comma_matcher acc opn m X : plain m ->
-    pstep SComma (mkP acc opn (mkLx (asc 44 :: (mrunes m ++ X)) false))
-    = Ok (Some SMatcher, mkP acc opn (mkLx (mrunes m ++ X) false)).
-  Proof.
-    intros Hm. cbn [MatcherSyntax.pstep p_lx].
-    rewrite (expect_scan _ (mkTok TComma [44]) (mrunes m ++ X)) by reflexivity.
-    rewrite (expect_peek_scan _ _ _ _ (first_token m X Hm)) by reflexivity.
-    reflexivity.
-  Qed.
-
   (* after the last matcher: close brace (if one was opened) and end of input *)
   Lemma tail_steps acc opn f :
     parse_loop (S (S (S f))) SEndOfMatcher (mkP acc opn (mkLx (closer opn) false)) = Ok acc.
   Proof. destruct opn; reflexivity. Qed.
-
-  Lemma loop_matchers ms : Forall plain ms -> ms <> [] -> forall acc opn fuel, (3 * length ms + 2 <= fuel)%nat ->
-    parse_loop fuel SMatcher (mkP acc opn (mkLx (jr ms ++ closer opn) false)) = Ok (acc ++ ms).
-  Proof.
-    induction 1 as [|m r Hm Hr IH]; [congruence|]. intros _ acc opn fuel Hf.
-    destruct r as [|m' r'].
-    - (* last matcher *)
-      do 4 (destruct fuel as [|fuel]; [simpl in Hf; lia|]).
-      rewrite parse_loop_S. change (jr [m]) with (mrunes m).
-      change (pstep SMatcher) with (parse_matcher_step is_space compiles).
-      rewrite matcher_step by exact Hm. apply tail_steps.
-    - do 3 (destruct fuel as [|fuel]; [simpl in Hf; lia|]).
-      change (jr (m :: m' :: r')) with (mrunes m ++ asc 44 :: jr (m' :: r')).
-      rewrite <- app_assoc. rewrite parse_loop_S.
-      change (pstep SMatcher) with (parse_matcher_step is_space compiles).
-      rewrite matcher_step by exact Hm.
-      change ((asc 44 :: jr (m' :: r')) ++ closer opn) with (asc 44 :: (jr (m' :: r') ++ closer opn)).
-      rewrite parse_loop_S, step_end_comma.
-      destruct (jr_first m' r') as [tl Htl]. rewrite Htl.
-      rewrite parse_loop_S, step_comma_matcher by exact (Forall_inv Hr).
-      rewrite <- Htl.
-      rewrite (IH ltac:(discriminate) (acc ++ [m]) opn fuel) by (simpl in *; lia).
-      rewrite <- app_assoc. reflexivity.
-  Qed.
 
   Lemma accept_peek_scan rs t rs' ks :
     scan_go rs = (Ok t, rs') -> is_eof t = false ->
@@ -948,65 +886,10 @@ Section RoundTrip.
     intros Hs He. unfold accept_peek, MatcherSyntax.peek, MatcherSyntax.scan. simpl. rewrite Hs. simpl. rewrite He. reflexivity.
   Qed.
 
-  Lemma step_open_nobrace m X : plain m ->
-    pstep SOpenBrace (mkP [] false (mkLx (mrunes m ++ X) false))
-    = Ok (Some SMatcher, mkP [] false (mkLx (mrunes m ++ X) false)).
-  Proof.
-    intros Hm. cbn [MatcherSyntax.pstep p_lx p_ms]. unfold accept.
-    rewrite (accept_peek_scan _ _ _ _ (first_token m X Hm)) by reflexivity.
-    replace (one_of _ [TOpenBrace]) with false by reflexivity. cbn [is_eof_err res_bind].
-    rewrite (accept_peek_scan _ _ _ _ (first_token m X Hm)) by reflexivity.
-    reflexivity.
-  Qed.
-
-  Lemma step_open_brace m X : plain m ->
-    pstep SOpenBrace (mkP [] false (mkLx (asc 123 :: (mrunes m ++ X)) false))
-    = Ok (Some SMatcher, mkP [] true (mkLx (mrunes m ++ X) false)).
-  Proof.
-    intros Hm. cbn [MatcherSyntax.pstep p_lx p_ms]. unfold accept.
-    rewrite (accept_peek_scan _ (mkTok TOpenBrace [123]) (mrunes m ++ X)) by reflexivity.
-    replace (one_of _ [TOpenBrace]) with true by reflexivity.
-    replace (MatcherSyntax.scan is_space (mkLx (asc 123 :: (mrunes m ++ X)) false))
-      with (Ok (mkTok TOpenBrace [123]), mkLx (mrunes m ++ X) false) by reflexivity.
-    cbn [is_eof_err res_bind].
-    rewrite (accept_peek_scan _ _ _ _ (first_token m X Hm)) by reflexivity.
-    reflexivity.
-  Qed.
-
   Lemma phi_open s :
     (phi SOpenBrace (mkP [] false (mkLx (decode_all s) false)) <= length s + 6)%nat.
   Proof. unfold phi, lxlen. simpl. pose proof (decode_all_f_length (length s) s). unfold decode_all. lia. Qed.
 
-  (* print then parse, one matcher (no braces) *)
-  Lemma roundtrip_single m : plain m ->
-    utf8_matchers is_space compiles (print_b is_space is_print m) = Ok [m].
-  Proof.
-    intros Hm. rewrite utf8_matchers_eq_raw. unfold utf8_parse_raw.
-    set (s := print_b is_space is_print m).
-    rewrite (parse_loop_irrel _ (S (length s + 6)) _ _ (phi_open s)) by (pose proof (phi_open s); lia).
-    pose proof (decode_print m [] Hm) as Hd. rewrite app_nil_r in Hd. change (decode_all []) with (@nil (Z * list Z)) in Hd.
-    fold s in Hd. rewrite Hd.
-    rewrite parse_loop_S. rewrite step_open_nobrace by exact Hm.
-    apply (loop_matchers [m] ltac:(constructor; [exact Hm|constructor]) ltac:(discriminate) [] false).
-    simpl. lia.
-  Qed.
-
-  (* print then parse, a braced list of any length *)
-  Lemma roundtrip_list ms : Forall plain ms ->
-    utf8_matchers is_space compiles (print_list_b is_space is_print ms) = Ok ms.
-  Proof.
-    intros Hms. rewrite utf8_matchers_eq_raw. unfold utf8_parse_raw.
-    set (s := print_list_b is_space is_print ms).
-    rewrite (parse_loop_irrel _ (S (length s + 6 + 3 * length ms)) _ _ (phi_open s)) by (pose proof (phi_open s); lia).
-    assert (Hd : decode_all s = asc 123 :: (jr ms ++ [asc 125])).
-    { unfold s, print_list_b. rewrite (decode_all_canon_app 123 [123]) by (apply canon_ascii_intro; lia).
-      rewrite decode_join by exact Hms. reflexivity. }
-    rewrite Hd. destruct ms as [|m r].
-    - reflexivity.
-    - destruct (jr_first m r) as [tl Htl]. rewrite parse_loop_S, Htl.
-      rewrite step_open_brace by exact (Forall_inv Hms). rewrite <- Htl.
-      apply (loop_matchers (m :: r) Hms ltac:(discriminate) [] true). simpl. lia.
-  Qed.
 End RoundTrip.
 
 Lemma fine_iff {A} (r : res A) : fine r <-> r <> Panic /\ r <> Err "fuel".
@@ -1117,39 +1000,1043 @@ Section ClassicRT.
   Qed.
 End ClassicRT.
 
+(* ---------- strconv.Quote / Unquote ---------- *)
+Definition hexok (b : Z) : Prop := (48 <= b <= 57) \/ (97 <= b <= 102).
+
+Lemma hexd_ok d : 0 <= d < 16 -> hexok (hexd d).
+Proof. unfold hexok, hexd. intros H. destruct (d <? 10) eqn:E; lia. Qed.
+
+Lemma unhex_hexd d : 0 <= d < 16 -> unhex (hexd d) = Some d.
+Proof.
+  intros H. unfold unhex, hexd. destruct (d <? 10) eqn:E.
+  - destruct ((48 <=? 48 + d) && (48 + d <=? 57)) eqn:E1; [f_equal; lia|lia].
+  - destruct ((48 <=? 87 + d) && (87 + d <=? 57)) eqn:E1; [lia|].
+    destruct ((97 <=? 87 + d) && (87 + d <=? 102)) eqn:E2; [f_equal; lia|lia].
+Qed.
+
+Lemma mod16 x : 0 <= x mod 16 < 16.
+Proof. apply Z.mod_pos_bound. lia. Qed.
+
+Lemma canon_valid r bs : canon (r, bs) -> valid_rune r = true /\ 0 <= r.
+Proof.
+  intros (Hne & Hd & Hb). simpl in *. unfold bad_rune in Hb. simpl in Hb. revert Hd Hb.
+  destruct bs as [|b0 [|b1 [|b2 [|b3 [|b4 bs']]]]]; [congruence|..]; unfold decode1; simpl length;
+    split_ifs; intros Hd Hb; inversion Hd; subst; try (simpl in Hb; discriminate);
+    unfold valid_rune, cont, RuneError in *; split_hyp_ifs; lia.
+Qed.
+
+Lemma unhex_n_2 r tq : 0 <= r < 256 ->
+  unhex_n 2 (hexd (r / 16 mod 16) :: hexd (r mod 16) :: tq) 0 = Some (r, tq).
+Proof.
+  intros H. simpl. rewrite !unhex_hexd by apply mod16. f_equal. f_equal. Z.div_mod_to_equations. lia.
+Qed.
+
+Lemma unhex_n_4 r tq : 0 <= r < 65536 ->
+  unhex_n 4 (hexd (r / 4096 mod 16) :: hexd (r / 256 mod 16) :: hexd (r / 16 mod 16) :: hexd (r mod 16) :: tq) 0
+  = Some (r, tq).
+Proof.
+  intros H. simpl. rewrite !unhex_hexd by apply mod16. f_equal. f_equal. Z.div_mod_to_equations. lia.
+Qed.
+
+Lemma unhex_n_8 r tq : 0 <= r < 4294967296 ->
+  unhex_n 8 (hexd (r / 268435456 mod 16) :: hexd (r / 16777216 mod 16) :: hexd (r / 1048576 mod 16) ::
+             hexd (r / 65536 mod 16) :: hexd (r / 4096 mod 16) :: hexd (r / 256 mod 16) :: hexd (r / 16 mod 16) ::
+             hexd (r mod 16) :: tq) 0 = Some (r, tq).
+Proof.
+  intros H. simpl. rewrite !unhex_hexd by apply mod16. f_equal. f_equal. Z.div_mod_to_equations. lia.
+Qed.
+
+Section Quote.
+  Variable is_print : Z -> bool.
+  (* the runes of what Quote emits for one well-formed rune *)
+  Definition qrunes (x : Z * list Z) : list (Z * list Z) :=
+    if (fst x =? 34) || (fst x =? 92) then [asc 92; asc (fst x)]
+    else if is_print (fst x) then [x] else map asc (quote_rune is_print (fst x)).
+
+  Lemma raw_map_asc l : raw (map asc l) = l.
+  Proof. induction l as [|b l IH]; [reflexivity|]. unfold raw in *. simpl. rewrite IH. reflexivity. Qed.
+
+  (* the escape sequences Quote emits: a backslash, a letter, then hex digits *)
+  Lemma quote_rune_shape r : 0 <= r -> ((r =? 34) || (r =? 92)) = false -> is_print r = false ->
+    exists c l, quote_rune is_print r = 92 :: c :: l /\ 44 < c < 128 /\ Forall hexok l.
+  Proof.
+    intros Hr E0 Ep. unfold quote_rune. rewrite E0, Ep.
+    repeat match goal with |- context [if ?b then _ else _] => destruct b end;
+      eexists _, _; (split; [reflexivity|]); (split; [lia|]);
+      repeat (apply List.Forall_cons; [apply hexd_ok, mod16|]); apply List.Forall_nil.
+  Qed.
+
+  Lemma hexok_ascii l : Forall hexok l -> Forall (fun b => 0 <= b < 128) l.
+  Proof. intros H. eapply Forall_impl; [exact H|]. unfold hexok. intros; simpl in *; lia. Qed.
+
+  Lemma canon_map_asc l : Forall (fun b => 0 <= b < 128) l -> Forall canon (map asc l).
+  Proof. induction 1; simpl; constructor; [apply canon_ascii_intro; assumption|assumption]. Qed.
+
+  Lemma raw_qrunes x : canon x -> raw (qrunes x) = quote_rune is_print (fst x).
+  Proof.
+    destruct x as [r bs]. intros Hc. unfold qrunes. simpl fst.
+    destruct ((r =? 34) || (r =? 92)) eqn:E0.
+    { unfold quote_rune. rewrite E0. reflexivity. }
+    destruct (is_print r) eqn:Ep.
+    { unfold quote_rune. rewrite E0, Ep. rewrite (encode_decode r bs Hc). unfold raw. simpl. apply app_nil_r. }
+    apply raw_map_asc.
+  Qed.
+
+  Lemma canon_qrunes x : canon x -> Forall canon (qrunes x).
+  Proof.
+    destruct x as [r bs]. intros Hc. destruct (canon_valid r bs Hc) as [_ Hr0]. unfold qrunes. simpl fst.
+    destruct ((r =? 34) || (r =? 92)) eqn:E0.
+    { unfold asc. apply List.Forall_cons; [apply canon_ascii_intro; lia|].
+      apply List.Forall_cons; [apply canon_ascii_intro; lia|apply List.Forall_nil]. }
+    destruct (is_print r) eqn:Ep; [apply List.Forall_cons; [exact Hc|apply List.Forall_nil]|].
+    destruct (quote_rune_shape r Hr0 E0 Ep) as (c & l & -> & Hc' & Hl).
+    apply canon_map_asc. apply List.Forall_cons; [lia|]. apply List.Forall_cons; [lia|apply hexok_ascii, Hl].
+  Qed.
+
+  Lemma canon_flat_qrunes V : Forall canon V -> Forall canon (flat_map qrunes V).
+  Proof. induction 1 as [|x V Hc _ IH]; [constructor|]. simpl. apply Forall_app. split; [apply canon_qrunes, Hc|exact IH]. Qed.
+
+  (* go_quote on valid UTF-8, as runes *)
+  Lemma go_quote_raw s : valid_utf8 s = true ->
+    go_quote is_print s = 34 :: raw (flat_map qrunes (decode_all s)) ++ [34].
+  Proof.
+    intros Hv. unfold go_quote. f_equal. f_equal.
+    pose proof (valid_decode_canon s Hv) as HV. induction HV as [|x V Hc _ IH]; [reflexivity|].
+    simpl. rewrite raw_app, IH, (raw_qrunes x Hc). f_equal.
+    destruct Hc as (_ & _ & Hb). rewrite Hb. reflexivity.
+  Qed.
+
+  (* the lexer's quoted-string scan runs over a Quote body up to the closing quote *)
+  Lemma quoted_body_plain l R : Forall hexok l ->
+    quoted_body (map asc l ++ R) false = option_map (fun ab => (map asc l ++ fst ab, snd ab)) (quoted_body R false).
+  Proof.
+    induction 1 as [|b l Hb _ IH]; simpl.
+    - destruct (quoted_body R false) as [[a b]|]; reflexivity.
+    - destruct (b =? 92) eqn:E1; [unfold hexok in Hb; lia|]. destruct (b =? 34) eqn:E2; [unfold hexok in Hb; lia|].
+      rewrite IH. destruct (quoted_body R false) as [[a c]|]; reflexivity.
+  Qed.
+
+  Lemma quoted_body_qrunes x R : canon x ->
+    quoted_body (qrunes x ++ R) false = option_map (fun ab => (qrunes x ++ fst ab, snd ab)) (quoted_body R false).
+  Proof.
+    destruct x as [r bs]. intros Hc. destruct (canon_valid r bs Hc) as [_ Hr0]. unfold qrunes. simpl fst.
+    destruct ((r =? 34) || (r =? 92)) eqn:E0.
+    { simpl. destruct (quoted_body R false) as [[a c]|]; reflexivity. }
+    destruct (is_print r) eqn:Ep.
+    { apply orb_false_elim in E0 as [E34 E92]. simpl. rewrite E92, E34. destruct (quoted_body R false) as [[a c]|]; reflexivity. }
+    destruct (quote_rune_shape r Hr0 E0 Ep) as (c & l & -> & Hc' & Hl).
+    change (map asc (92 :: c :: l) ++ R) with (asc 92 :: asc c :: (map asc l ++ R)).
+    simpl. rewrite quoted_body_plain by exact Hl. destruct (quoted_body R false) as [[a d]|]; reflexivity.
+  Qed.
+
+  Lemma quoted_body_quote V rest : Forall canon V ->
+    quoted_body (flat_map qrunes V ++ asc 34 :: rest) false = Some (flat_map qrunes V ++ [asc 34], rest).
+  Proof.
+    induction 1 as [|x V Hc _ IH]; [reflexivity|]. simpl. rewrite <- app_assoc.
+    rewrite quoted_body_qrunes by exact Hc. rewrite IH. simpl. rewrite <- app_assoc. reflexivity.
+  Qed.
+
+  Hypothesis print_lf : is_print 10 = false.
+
+  Lemma unquote_step r bs tq f : canon (r, bs) ->
+    unquote_body (S f) (quote_rune is_print r ++ tq) = res_map (app bs) (unquote_body f tq).
+  Proof.
+    intros Hc. destruct (canon_valid r bs Hc) as [Hv Hr0].
+    assert (Hasc : r < 128 -> bs = [r]) by (apply canon_ascii; exact Hc).
+    unfold quote_rune.
+    destruct ((r =? 34) || (r =? 92)) eqn:E0.
+    { rewrite Hasc by lia. destruct (r =? 34) eqn:E; [assert (r = 34) by lia|assert (r = 92) by lia]; subst r; reflexivity. }
+    apply orb_false_elim in E0 as [E34 E92].
+    destruct (is_print r) eqn:Ep.
+    { rewrite (encode_decode r bs Hc).
+      assert (E10 : (r =? 10) = false). { destruct (r =? 10) eqn:E; [|reflexivity]. assert (r = 10) by lia. subst. congruence. }
+      destruct (Z_lt_le_dec r 128) as [Hlt|Hge].
+      - rewrite (Hasc Hlt). simpl app. cbn [unquote_body]. rewrite E34, E10.
+        unfold unquote_char. rewrite E34. destruct (128 <=? r) eqn:E4; [lia|]. rewrite E92. simpl negb. cbv iota.
+        destruct (r <? 128) eqn:E5; [|lia]. reflexivity.
+      - pose proof (canon_multi r bs Hc Hge) as Hhigh. pose proof Hc as (Hne & _ & _). simpl in Hne.
+        destruct bs as [|b0 bs']; [congruence|]. apply Forall_cons in Hhigh as [Hb0 _].
+        change ((b0 :: bs') ++ tq) with (b0 :: (bs' ++ tq)). cbn [unquote_body].
+        destruct (b0 =? 34) eqn:E4; [lia|]. destruct (b0 =? 10) eqn:E5; [lia|].
+        unfold unquote_char. rewrite E4. destruct (128 <=? b0) eqn:E6; [|lia].
+        change (b0 :: bs' ++ tq) with ((b0 :: bs') ++ tq).
+        rewrite (decode1_app r (b0 :: bs') tq Hc). rewrite (drop_app (b0 :: bs') tq).
+        destruct (r <? 128) eqn:E7; [lia|]. simpl orb. cbv iota.
+        rewrite (encode_decode r (b0 :: bs') Hc). reflexivity. }
+    destruct (r =? 7) eqn:E7. { rewrite Hasc by lia. assert (r = 7) by lia. subst. reflexivity. }
+    destruct (r =? 8) eqn:E8. { rewrite Hasc by lia. assert (r = 8) by lia. subst. reflexivity. }
+    destruct (r =? 12) eqn:E12. { rewrite Hasc by lia. assert (r = 12) by lia. subst. reflexivity. }
+    destruct (r =? 10) eqn:E10. { rewrite Hasc by lia. assert (r = 10) by lia. subst. reflexivity. }
+    destruct (r =? 13) eqn:E13. { rewrite Hasc by lia. assert (r = 13) by lia. subst. reflexivity. }
+    destruct (r =? 9) eqn:E9. { rewrite Hasc by lia. assert (r = 9) by lia. subst. reflexivity. }
+    destruct (r =? 11) eqn:E11. { rewrite Hasc by lia. assert (r = 11) by lia. subst. reflexivity. }
+    destruct ((r <? 32) || (r =? 127)) eqn:Ex.
+    { rewrite Hasc by lia.
+      change ([92; 120; hexd (r / 16 mod 16); hexd (r mod 16)] ++ tq)
+        with (92 :: 120 :: hexd (r / 16 mod 16) :: hexd (r mod 16) :: tq).
+      cbn [unquote_body]. change (92 =? 34) with false. change (92 =? 10) with false. cbv iota.
+      assert (Hu : unquote_char (92 :: 120 :: hexd (r / 16 mod 16) :: hexd (r mod 16) :: tq) = Some (r, false, tq)).
+      { unfold unquote_char. change (92 =? 34) with false. change (128 <=? 92) with false. change (negb (92 =? 92)) with false.
+        cbv iota. change (120 =? 97) with false. change (120 =? 98) with false. change (120 =? 102) with false.
+        change (120 =? 110) with false. change (120 =? 114) with false. change (120 =? 116) with false.
+        change (120 =? 118) with false. change (120 =? 120) with true. cbv iota.
+        rewrite unhex_n_2 by lia. reflexivity. }
+      rewrite Hu. destruct (r <? 128) eqn:E; [|lia]. reflexivity. }
+    rewrite Hv.
+    destruct (r <? 65536) eqn:E16.
+    { change ([92; 117; hexd (r / 4096 mod 16); hexd (r / 256 mod 16); hexd (r / 16 mod 16); hexd (r mod 16)] ++ tq)
+        with (92 :: 117 :: hexd (r / 4096 mod 16) :: hexd (r / 256 mod 16) :: hexd (r / 16 mod 16) :: hexd (r mod 16) :: tq).
+      cbn [unquote_body]. change (92 =? 34) with false. change (92 =? 10) with false. cbv iota.
+      assert (Hu : unquote_char (92 :: 117 :: hexd (r / 4096 mod 16) :: hexd (r / 256 mod 16) :: hexd (r / 16 mod 16) :: hexd (r mod 16) :: tq)
+                   = Some (r, true, tq)).
+      { unfold unquote_char. change (92 =? 34) with false. change (128 <=? 92) with false. change (negb (92 =? 92)) with false.
+        cbv iota. change (117 =? 97) with false. change (117 =? 98) with false. change (117 =? 102) with false.
+        change (117 =? 110) with false. change (117 =? 114) with false. change (117 =? 116) with false.
+        change (117 =? 118) with false. change (117 =? 120) with false. change (117 =? 117) with true. cbv iota.
+        rewrite unhex_n_4 by lia. rewrite Hv. reflexivity. }
+      rewrite Hu. destruct (r <? 128) eqn:E.
+      - rewrite Hasc by lia. reflexivity.
+      - simpl orb. cbv iota. rewrite (encode_decode r bs Hc). reflexivity. }
+    { assert (Hmax : r <= 1114111) by (unfold valid_rune in Hv; lia).
+      match goal with |- unquote_body _ (?l ++ tq) = _ =>
+        change (l ++ tq) with (92 :: 85 :: hexd (r / 268435456 mod 16) :: hexd (r / 16777216 mod 16) :: hexd (r / 1048576 mod 16) ::
+            hexd (r / 65536 mod 16) :: hexd (r / 4096 mod 16) :: hexd (r / 256 mod 16) :: hexd (r / 16 mod 16) :: hexd (r mod 16) :: tq) end.
+      cbn [unquote_body]. change (92 =? 34) with false. change (92 =? 10) with false. cbv iota.
+      match goal with |- context [unquote_char ?l] =>
+        assert (Hu : unquote_char l = Some (r, true, tq)) end.
+      { unfold unquote_char. change (92 =? 34) with false. change (128 <=? 92) with false. change (negb (92 =? 92)) with false.
+        cbv iota. change (85 =? 97) with false. change (85 =? 98) with false. change (85 =? 102) with false.
+        change (85 =? 110) with false. change (85 =? 114) with false. change (85 =? 116) with false.
+        change (85 =? 118) with false. change (85 =? 120) with false. change (85 =? 117) with false.
+        change (85 =? 85) with true. cbv iota.
+        rewrite unhex_n_8 by lia. rewrite Hv. reflexivity. }
+      rewrite Hu. destruct (r <? 128) eqn:E; [lia|]. simpl orb. cbv iota. rewrite (encode_decode r bs Hc). reflexivity. }
+  Qed.
+
+  (* Unquote inverts Quote on valid UTF-8 *)
+  Lemma unquote_quote_body V : Forall canon V -> forall fuel, (length (raw (flat_map qrunes V)) < fuel)%nat ->
+    unquote_body fuel (raw (flat_map qrunes V) ++ [34]) = Ok (raw V).
+  Proof.
+    induction 1 as [|[r bs] V Hc _ IH]; intros fuel Hf.
+    - destruct fuel; [simpl in Hf; lia|]. reflexivity.
+    - simpl flat_map in *. rewrite raw_app in *. rewrite app_length in Hf.
+      rewrite (raw_qrunes _ Hc) in *. simpl fst in *.
+      assert (Hlen : (1 <= length (quote_rune is_print r))%nat).
+      { unfold quote_rune. pose proof Hc as (Hne & _ & _). simpl in Hne.
+        repeat match goal with |- context [if ?b then _ else _] => destruct b end; simpl; try lia.
+        rewrite (encode_decode r bs Hc). destruct bs; [congruence|simpl; lia]. }
+      destruct fuel as [|f]; [lia|]. rewrite <- app_assoc.
+      rewrite (unquote_step r bs _ f Hc). rewrite IH by lia. reflexivity.
+  Qed.
+
+  Lemma go_unquote_quote s : valid_utf8 s = true -> go_unquote (go_quote is_print s) = Ok s.
+  Proof.
+    intros Hv. rewrite go_quote_raw by exact Hv. unfold go_unquote.
+    pose proof (unquote_quote_body (decode_all s) (valid_decode_canon s Hv)
+                  (length (34 :: raw (flat_map qrunes (decode_all s)) ++ [34]))) as H.
+    rewrite raw_decode_all in H.
+    destruct (raw (flat_map qrunes (decode_all s)) ++ [34]) as [|d body] eqn:E.
+    { destruct (raw (flat_map qrunes (decode_all s))); discriminate. }
+    apply H. apply (f_equal length) in E. rewrite app_length in E. simpl in *. lia.
+  Qed.
+End Quote.
+
+(* ---------- the printed form of ANY printable matcher, as runes; the parser on it ---------- *)
+Section General.
+  Variable is_space : Z -> bool.
+  Variable is_print : Z -> bool.
+  Variable compiles : list Z -> bool.
+  Hypothesis print_lf : is_print 10 = false.
+  Notation qr := (qrunes is_print).
+  Notation scan_go := (scan_go is_space).
+  Notation pstep := (pstep is_space compiles).
+  Notation parse_loop := (parse_loop is_space compiles).
+
+  Definition name_reserved (m : bm) : bool :=
+    existsb (fun x => is_reserved is_space (fst x)) (decode_all (b_name m)).
+  (* the matchers the round-trip clause speaks about (DESIGN I6) *)
+  Definition dom (m : bm) : Prop :=
+    b_name m <> [] /\ valid_utf8 (b_name m) = true /\ valid_utf8 (b_value m) = true /\
+    (is_regex (b_type m) = true -> compiles (b_value m) = true).
+  Definition qmrunes (m : bm) : list (Z * list Z) :=
+    asc 34 :: flat_map qr (decode_all (b_name m)) ++ asc 34 :: map asc (op_bytes (b_type m)) ++
+    asc 34 :: flat_map qr (decode_all (b_value m)) ++ [asc 34].
+  Definition grunes (m : bm) : list (Z * list Z) := if name_reserved m then qmrunes m else mrunes m.
+
+  Lemma dom_plain m : dom m -> name_reserved m = false -> plain is_space compiles m.
+  Proof. intros (H1 & H2 & H3 & H4) Hr. repeat split; assumption. Qed.
+
+  Lemma canon_q : canon (asc 34).
+  Proof. apply canon_ascii_intro. lia. Qed.
+
+  Lemma qmrunes_canon m : dom m -> Forall canon (qmrunes m).
+  Proof.
+    intros (Hne & Hvn & Hvv & Hre). unfold qmrunes.
+    apply List.Forall_cons; [apply canon_q|]. apply Forall_app. split; [apply canon_flat_qrunes, valid_decode_canon, Hvn|].
+    apply List.Forall_cons; [apply canon_q|]. apply Forall_app. split; [apply canon_ops|].
+    apply List.Forall_cons; [apply canon_q|]. apply Forall_app. split; [apply canon_flat_qrunes, valid_decode_canon, Hvv|].
+    apply List.Forall_cons; [apply canon_q|apply List.Forall_nil].
+  Qed.
+
+  Lemma raw_cons_asc b X : raw (asc b :: X) = b :: raw X.
+  Proof. reflexivity. Qed.
+
+  Lemma raw_qmrunes m : dom m -> name_reserved m = true -> raw (qmrunes m) = print_b is_space is_print m.
+  Proof.
+    intros (Hne & Hvn & Hvv & Hre) Hr. unfold print_b. unfold name_reserved in Hr. rewrite Hr.
+    rewrite !go_quote_raw by assumption. unfold qmrunes.
+    rewrite raw_cons_asc, raw_app, raw_cons_asc, raw_app, raw_ops, raw_cons_asc, raw_app.
+    simpl. rewrite <- !app_assoc. reflexivity.
+  Qed.
+
+  Lemma g_decode_print m rest : dom m ->
+    decode_all (print_b is_space is_print m ++ rest) = grunes m ++ decode_all rest.
+  Proof.
+    intros Hd. unfold grunes. destruct (name_reserved m) eqn:Hr.
+    - rewrite <- (raw_qmrunes m Hd Hr). apply decode_all_raw, qmrunes_canon, Hd.
+    - apply (decode_print is_space is_print compiles). apply dom_plain; assumption.
+  Qed.
+
+  Lemma scan_quoted_tok B rest :
+    quoted_body (B ++ asc 34 :: rest) false = Some (B ++ [asc 34], rest) ->
+    scan_go (asc 34 :: B ++ asc 34 :: rest) = (Ok (mkTok TQuoted (34 :: raw B ++ [34])), rest).
+  Proof.
+    intros H. cbn [MatcherSyntax.scan_go]. simpl fst. simpl Z.eqb. simpl orb. cbv iota.
+    unfold scan_quoted. simpl fst. simpl Z.eqb. cbv iota.
+    rewrite H. simpl snd. rewrite raw_app. reflexivity.
+  Qed.
+
+  Lemma scan_go_quote s rest : valid_utf8 s = true ->
+    scan_go (asc 34 :: flat_map qr (decode_all s) ++ asc 34 :: rest) = (Ok (mkTok TQuoted (go_quote is_print s)), rest).
+  Proof.
+    intros Hv. rewrite scan_quoted_tok by (apply quoted_body_quote, valid_decode_canon, Hv).
+    rewrite go_quote_raw by exact Hv. reflexivity.
+  Qed.
+
+  Lemma tok_unquote_quote s : valid_utf8 s = true -> tok_unquote (mkTok TQuoted (go_quote is_print s)) = Ok s.
+  Proof.
+    intros Hv. unfold tok_unquote. simpl t_kind. simpl t_value.
+    replace (beq TQuoted TQuoted) with true by reflexivity.
+    rewrite go_unquote_quote by assumption. simpl. rewrite Hv. reflexivity.
+  Qed.
+
+  Lemma qmrunes_shape m rest :
+    qmrunes m ++ rest =
+    asc 34 :: flat_map qr (decode_all (b_name m)) ++ asc 34 ::
+      (map asc (op_bytes (b_type m)) ++ asc 34 :: (flat_map qr (decode_all (b_value m)) ++ asc 34 :: rest)).
+  Proof. unfold qmrunes. simpl. rewrite <- !app_assoc. simpl. rewrite <- !app_assoc. simpl. rewrite <- !app_assoc. reflexivity. Qed.
+
+  (* the first token of a printed matcher is its name, bare or quoted *)
+  Lemma g_first_token m rest : dom m ->
+    exists t r1, scan_go (grunes m ++ rest) = (Ok t, r1) /\ (t_kind t = TUnquoted \/ t_kind t = TQuoted).
+  Proof.
+    intros Hd. unfold grunes. destruct (name_reserved m) eqn:Hr.
+    - destruct Hd as (Hne & Hvn & Hvv & Hre). rewrite qmrunes_shape.
+      eexists _, _. split; [apply scan_go_quote, Hvn|]. right. reflexivity.
+    - eexists _, _. split; [apply (first_token is_space compiles), dom_plain; assumption|]. left. reflexivity.
+  Qed.
+
+  Lemma g_matcher_step m acc opn rest : dom m ->
+    parse_matcher_step is_space compiles (mkP acc opn (mkLx (grunes m ++ rest) false))
+    = Ok (Some SEndOfMatcher, mkP (acc ++ [m]) opn (mkLx rest false)).
+  Proof.
+    intros Hd. unfold grunes. destruct (name_reserved m) eqn:Hr; [|apply matcher_step, dom_plain; assumption].
+    pose proof Hd as (Hne & Hvn & Hvv & Hre).
+    rewrite qmrunes_shape. unfold parse_matcher_step. cbn [p_lx].
+    rewrite (expect_scan _ _ _ _ _ (scan_go_quote (b_name m) _ Hvn)) by reflexivity.
+    rewrite tok_unquote_quote by exact Hvn.
+    rewrite (expect_scan _ _ _ _ _ (scan_op is_space (b_type m) _)); [|destruct (b_type m); reflexivity|apply op_kind_one_of].
+    rewrite (expect_scan _ _ _ _ _ (scan_go_quote (b_value m) rest Hvv)) by reflexivity.
+    rewrite tok_unquote_quote by exact Hvv.
+    assert (Hnm : new_matcher compiles (b_type m) (b_name m) (b_value m) = Ok m).
+    { unfold new_matcher. destruct (is_regex (b_type m)) eqn:Er; [rewrite (Hre eq_refl)|]; destruct m; reflexivity. }
+    destruct (b_type m) eqn:Et; simpl t_kind; cbv iota; rewrite Hnm; reflexivity.
+  Qed.
+
+  (* a printed matcher list, as runes *)
+  Fixpoint gjr (ms : list bm) : list (Z * list Z) :=
+    match ms with
+    | [] => []
+    | m :: r => match r with [] => grunes m | _ => grunes m ++ asc 44 :: gjr r end
+    end.
+
+  Lemma g_decode_join ms rest : Forall dom ms ->
+    decode_all (join_comma (map (print_b is_space is_print) ms) ++ rest) = gjr ms ++ decode_all rest.
+  Proof.
+    induction 1 as [|m r Hm Hr IH]; [reflexivity|].
+    destruct r as [|m' r'].
+    - simpl. apply g_decode_print, Hm.
+    - change (join_comma (map (print_b is_space is_print) (m :: m' :: r')))
+        with (print_b is_space is_print m ++ [44] ++ join_comma (map (print_b is_space is_print) (m' :: r'))).
+      change (gjr (m :: m' :: r')) with (grunes m ++ asc 44 :: gjr (m' :: r')).
+      rewrite <- !app_assoc. rewrite g_decode_print by exact Hm.
+      rewrite (decode_all_canon_app 44 [44]) by (apply canon_ascii_intro; lia).
+      rewrite IH. reflexivity.
+  Qed.
+
+  Lemma gjr_first m r : exists tl, forall T, gjr (m :: r) ++ T = grunes m ++ tl T.
+  Proof.
+    destruct r as [|m' r'].
+    - exists (fun T => T). reflexivity.
+    - exists (fun T => asc 44 :: gjr (m' :: r') ++ T). intros T. simpl. rewrite <- app_assoc. reflexivity.
+  Qed.
+
+  Lemma kind_facts t : t_kind t = TUnquoted \/ t_kind t = TQuoted ->
+    is_eof t = false /\ one_of t [TCloseBrace; TUnquoted; TQuoted] = true /\ beq (t_kind t) TCloseBrace = false /\
+    one_of t [TOpenBrace] = false /\ one_of t [TCloseBrace] = false.
+  Proof. unfold is_eof, one_of. intros [H|H]; rewrite H; repeat split; reflexivity. Qed.
+
+  Lemma g_step_comma_matcher acc opn m X : dom m ->
+    pstep SComma (mkP acc opn (mkLx (asc 44 :: (grunes m ++ X)) false))
+    = Ok (Some SMatcher, mkP acc opn (mkLx (grunes m ++ X) false)).
+  Proof.
+    intros Hm. destruct (g_first_token m X Hm) as (t & r1 & Hs & Hk).
+    destruct (kind_facts t Hk) as (He & Ho & Hb & _ & _).
+    cbn [MatcherSyntax.pstep p_lx].
+    rewrite (expect_scan is_space _ (mkTok TComma [44]) (grunes m ++ X)) by reflexivity.
+    rewrite (expect_peek_scan is_space _ _ _ _ Hs He Ho).
+    cbn [is_eof_err]. rewrite Hb. reflexivity.
+  Qed.
+
+  Lemma g_loop_matchers ms : Forall dom ms -> ms <> [] -> forall acc opn fuel, (3 * length ms + 2 <= fuel)%nat ->
+    parse_loop fuel SMatcher (mkP acc opn (mkLx (gjr ms ++ closer opn) false)) = Ok (acc ++ ms).
+  Proof.
+    induction 1 as [|m r Hm Hr IH]; [congruence|]. intros _ acc opn fuel Hf.
+    destruct r as [|m' r'].
+    - do 4 (destruct fuel as [|fuel]; [simpl in Hf; lia|]).
+      rewrite parse_loop_S. change (gjr [m]) with (grunes m).
+      change (pstep SMatcher) with (parse_matcher_step is_space compiles).
+      rewrite g_matcher_step by exact Hm. apply tail_steps.
+    - do 3 (destruct fuel as [|fuel]; [simpl in Hf; lia|]).
+      change (gjr (m :: m' :: r')) with (grunes m ++ asc 44 :: gjr (m' :: r')).
+      rewrite <- app_assoc. rewrite parse_loop_S.
+      change (pstep SMatcher) with (parse_matcher_step is_space compiles).
+      rewrite g_matcher_step by exact Hm.
+      change ((asc 44 :: gjr (m' :: r')) ++ closer opn) with (asc 44 :: (gjr (m' :: r') ++ closer opn)).
+      rewrite parse_loop_S, step_end_comma.
+      destruct (gjr_first m' r') as [tl Htl]. rewrite Htl.
+      rewrite parse_loop_S, g_step_comma_matcher by exact (Forall_inv Hr).
+      rewrite <- Htl.
+      rewrite (IH ltac:(discriminate) (acc ++ [m]) opn fuel) by (simpl in *; lia).
+      rewrite <- app_assoc. reflexivity.
+  Qed.
+
+  Lemma g_step_open_nobrace m X : dom m ->
+    pstep SOpenBrace (mkP [] false (mkLx (grunes m ++ X) false))
+    = Ok (Some SMatcher, mkP [] false (mkLx (grunes m ++ X) false)).
+  Proof.
+    intros Hm. destruct (g_first_token m X Hm) as (t & r1 & Hs & Hk).
+    destruct (kind_facts t Hk) as (He & _ & _ & Hob & Hcb).
+    cbn [MatcherSyntax.pstep p_lx p_ms]. unfold accept.
+    rewrite (accept_peek_scan is_space _ _ _ _ Hs He). rewrite Hob. cbn [is_eof_err res_bind].
+    rewrite (accept_peek_scan is_space _ _ _ _ Hs He). rewrite Hcb. reflexivity.
+  Qed.
+
+  Lemma g_step_open_brace m X : dom m ->
+    pstep SOpenBrace (mkP [] false (mkLx (asc 123 :: (grunes m ++ X)) false))
+    = Ok (Some SMatcher, mkP [] true (mkLx (grunes m ++ X) false)).
+  Proof.
+    intros Hm. destruct (g_first_token m X Hm) as (t & r1 & Hs & Hk).
+    destruct (kind_facts t Hk) as (He & _ & _ & Hob & Hcb).
+    cbn [MatcherSyntax.pstep p_lx p_ms]. unfold accept.
+    rewrite (accept_peek_scan is_space _ (mkTok TOpenBrace [123]) (grunes m ++ X)) by reflexivity.
+    replace (one_of _ [TOpenBrace]) with true by reflexivity.
+    replace (MatcherSyntax.scan is_space (mkLx (asc 123 :: (grunes m ++ X)) false))
+      with (Ok (mkTok TOpenBrace [123]), mkLx (grunes m ++ X) false) by reflexivity.
+    cbn [is_eof_err res_bind].
+    rewrite (accept_peek_scan is_space _ _ _ _ Hs He). rewrite Hcb. reflexivity.
+  Qed.
+
+  (* print then parse with the UTF-8 parser: one matcher (no braces) *)
+  Lemma g_roundtrip_single m : dom m ->
+    utf8_matchers is_space compiles (print_b is_space is_print m) = Ok [m].
+  Proof.
+    intros Hm. rewrite utf8_matchers_eq_raw. unfold utf8_parse_raw.
+    set (s := print_b is_space is_print m).
+    rewrite (parse_loop_irrel is_space compiles _ (S (length s + 6)) _ _ (phi_open compiles s)) by (pose proof (phi_open compiles s); lia).
+    pose proof (g_decode_print m [] Hm) as Hd. rewrite app_nil_r in Hd. change (decode_all []) with (@nil (Z * list Z)) in Hd.
+    fold s in Hd. rewrite Hd.
+    rewrite parse_loop_S. rewrite g_step_open_nobrace by exact Hm.
+    apply (g_loop_matchers [m] ltac:(constructor; [exact Hm|constructor]) ltac:(discriminate) [] false).
+    simpl. lia.
+  Qed.
+
+  (* ... and a braced list of any length *)
+  Lemma g_roundtrip_list ms : Forall dom ms ->
+    utf8_matchers is_space compiles (print_list_b is_space is_print ms) = Ok ms.
+  Proof.
+    intros Hms. rewrite utf8_matchers_eq_raw. unfold utf8_parse_raw.
+    set (s := print_list_b is_space is_print ms).
+    rewrite (parse_loop_irrel is_space compiles _ (S (length s + 6 + 3 * length ms)) _ _ (phi_open compiles s)) by (pose proof (phi_open compiles s); lia).
+    assert (Hd : decode_all s = asc 123 :: (gjr ms ++ [asc 125])).
+    { unfold s, print_list_b. rewrite (decode_all_canon_app 123 [123]) by (apply canon_ascii_intro; lia).
+      rewrite g_decode_join by exact Hms. reflexivity. }
+    rewrite Hd. destruct ms as [|m r].
+    - reflexivity.
+    - destruct (gjr_first m r) as [tl Htl]. rewrite parse_loop_S, Htl.
+      rewrite g_step_open_brace by exact (Forall_inv Hms). rewrite <- Htl.
+      apply (g_loop_matchers (m :: r) Hms ltac:(discriminate) [] true). simpl. lia.
+  Qed.
+End General.
+
 Lemma head_not_123 (s : list Z) c tl : s = c :: tl -> c <> 123 -> match s with 123 :: _ => true | _ => false end = false.
 Proof.
   intros -> H. destruct c as [|p|p]; try reflexivity.
   do 7 (destruct p as [p|p|]; try reflexivity). congruence.
 Qed.
 
-Section ClassicRT2.
+(* ---------- the classic parser on ANY printed matcher: same matcher or rejection ---------- *)
+Lemma takew_dropw_split {A} (f : A -> bool) l :
+  l = takew f l ++ dropw f l /\ forallb f (takew f l) = true /\
+  match dropw f l with [] => True | y :: _ => f y = false end.
+Proof.
+  induction l as [|x l IH]; [repeat split|]. unfold takew, dropw in *. simpl.
+  destruct (f x) eqn:E; simpl.
+  - destruct IH as (H1 & H2 & H3). rewrite E. repeat split; [f_equal; exact H1|exact H2|exact H3].
+  - rewrite E. repeat split.
+Qed.
+
+Lemma name_char_ascii b : name_char b = true -> 0 <= b < 128.
+Proof. unfold name_char, name_start. lia. Qed.
+
+Lemma forallb_name_ascii p : forallb name_char p = true -> Forall (fun b => 0 <= b < 128) p.
+Proof.
+  rewrite forallb_forall. intros H. apply List.Forall_forall. intros b Hb. apply name_char_ascii, H, Hb.
+Qed.
+
+(* a byte below 128 that follows an all-ASCII prefix is a rune of the string *)
+Lemma ascii_prefix_rune p d q : Forall (fun b => 0 <= b < 128) p -> 0 <= d < 128 ->
+  In (asc d) (decode_all (p ++ d :: q)).
+Proof.
+  intros Hp Hd.
+  assert (HX : Forall canon (map asc p ++ [asc d])).
+  { apply Forall_app. split; [apply canon_map_asc, Hp|]. apply List.Forall_cons; [apply canon_ascii_intro, Hd|apply List.Forall_nil]. }
+  pose proof (decode_all_raw _ q HX) as H. rewrite raw_app, raw_map_asc in H.
+  change (raw [asc d]) with [d] in H. rewrite <- app_assoc in H. simpl in H. rewrite H.
+  apply in_or_app. left. apply in_or_app. right. left. reflexivity.
+Qed.
+
+Section ClassicAny.
   Variable is_space : Z -> bool.
   Variable is_print : Z -> bool.
   Variable compiles : list Z -> bool.
+  Hypothesis print_lf : is_print 10 = false.
+  (* what the proofs need of unicode.IsSpace: the five ASCII blanks of the RE2 class are spaces, the double quote
+     is not, and no label-name character is *)
+  Hypothesis blanks_are_spaces : forall b, re_space b = true -> is_space b = true.
+  Hypothesis quote_not_space : is_space 34 = false.
 
-  Lemma print_no_brace m : plain is_space compiles m -> cname (b_name m) = true ->
-    has_brace (print_b is_space is_print m) = false.
+  Lemma not_reserved_byte n p d q : name_reserved is_space (mkBM MEq n []) = false -> n = p ++ d :: q ->
+    Forall (fun b => 0 <= b < 128) p -> 0 <= d < 128 -> is_reserved is_space d = false.
   Proof.
-    intros (Hne & Hvn & Hres & Hvv & Hre) Hn. unfold print_b. rewrite Hres. unfold has_brace.
-    destruct (b_name m) as [|c n'] eqn:En; [discriminate|]. simpl in Hn. apply andb_true_iff in Hn as [Hc _].
-    assert (c <> 123) as Hc' by (unfold name_start in Hc; lia).
-    simpl app at 1.
-    match goal with |- (match ?s with _ => _ end) || _ = _ =>
-      set (s1 := s); rewrite (head_not_123 s1 c _ eq_refl Hc'); clear s1 end.
-    change (c :: n' ++ op_bytes (b_type m) ++ [34] ++ om_escape (b_value m) ++ [34])
-      with ((c :: n') ++ op_bytes (b_type m) ++ [34] ++ om_escape (b_value m) ++ [34]).
-    rewrite !app_assoc. rewrite rev_app_distr. reflexivity.
+    unfold name_reserved. simpl. intros Hr -> Hp Hd.
+    pose proof (ascii_prefix_rune p d q Hp Hd) as Hin.
+    destruct (is_reserved is_space d) eqn:E; [|reflexivity].
+    assert (existsb (fun x => is_reserved is_space (fst x)) (decode_all (p ++ d :: q)) = true).
+    { apply existsb_exists. exists (asc d). split; [exact Hin|exact E]. }
+    congruence.
   Qed.
 
-  Lemma fallback_roundtrip_single_classic m : plain is_space compiles m -> cname (b_name m) = true ->
+  Lemma reserved_facts d : is_reserved is_space d = false -> re_space d = false /\ d <> 61 /\ d <> 33 /\ d <> 123 /\ d <> 34 /\ d <> 44 /\ d <> 92.
+  Proof.
+    intros H. unfold MatcherSyntax.is_reserved in H. repeat (apply orb_false_elim in H as [H ?]).
+    split; [|lia]. destruct (re_space d) eqn:E; [|reflexivity]. rewrite (blanks_are_spaces d E) in H. discriminate.
+  Qed.
+
+  (* a byte of a non-reserved name after an ASCII prefix: not a blank, not an operator character *)
+  Lemma name_byte_facts n p d q : name_reserved is_space (mkBM MEq n []) = false -> n = p ++ d :: q ->
+    Forall (fun b => 0 <= b < 128) p -> re_space d = false /\ d <> 61 /\ d <> 33 /\ d <> 123.
+  Proof.
+    intros Hr Hn Hp. destruct (Z_lt_le_dec d 0) as [Hneg|Hpos]; [unfold re_space; lia|].
+    destruct (Z_lt_le_dec d 128) as [Hlt|Hge]; [|unfold re_space; lia].
+    pose proof (not_reserved_byte n p d q Hr Hn Hp ltac:(lia)) as H. apply reserved_facts in H. tauto.
+  Qed.
+
+  Lemma classic_rejects_nonclassic n rest :
+    name_reserved is_space (mkBM MEq n []) = false -> n <> [] -> cname n = false ->
+    classic_split (n ++ rest) = None.
+  Proof.
+    intros Hr Hne Hc. destruct n as [|c n']; [congruence|].
+    destruct (name_byte_facts (c :: n') [] c n' Hr eq_refl ltac:(constructor)) as (Hsp & _).
+    unfold classic_split. change ((c :: n') ++ rest) with (c :: (n' ++ rest)).
+    rewrite (dropw_head_false re_space c _ Hsp).
+    destruct (name_start c) eqn:Hs; [|reflexivity].
+    simpl in Hc. rewrite Hs in Hc. simpl in Hc.
+    (* the name-character prefix stops inside the name *)
+    destruct (takew_dropw_split name_char (c :: n')) as (Hsplit & Hall & Hhead).
+    remember (takew name_char (c :: n')) as p eqn:Hp_def.
+    destruct (dropw name_char (c :: n')) as [|d q] eqn:Ed.
+    { exfalso. rewrite app_nil_r in Hsplit. rewrite <- Hsplit in Hall. simpl in Hall.
+      apply andb_true_iff in Hall as [_ Hall]. congruence. }
+    change (c :: n' ++ rest) with ((c :: n') ++ rest). rewrite Hsplit. rewrite <- app_assoc.
+    destruct (takew_dropw_app name_char p ((d :: q) ++ rest) Hall Hhead) as [Ht Hd].
+    rewrite Hd.
+    destruct (name_byte_facts (c :: n') _ d q Hr Hsplit (forallb_name_ascii _ Hall)) as (Hsd & H61 & H33 & _).
+    change ((d :: q) ++ rest) with (d :: (q ++ rest)). rewrite (dropw_head_false re_space d _ Hsd).
+    destruct d as [|pd|pd]; try reflexivity.
+    do 7 (try (destruct pd as [pd|pd|]; try reflexivity)); congruence.
+  Qed.
+
+  Lemma name_reserved_eq m : name_reserved is_space (mkBM MEq (b_name m) []) = name_reserved is_space m.
+  Proof. reflexivity. Qed.
+
+  (* on the printed text of a matcher the classic parser returns that matcher (bare classic name) or rejects *)
+  Lemma classic_on_print m : dom compiles m ->
+    (name_reserved is_space m = false /\ cname (b_name m) = true /\
+     classic_matcher compiles (print_b is_space is_print m) = Ok m) \/
+    classic_matcher compiles (print_b is_space is_print m) = Err "bad-format".
+  Proof.
+    intros Hd. destruct (name_reserved is_space m) eqn:Hr.
+    - right. unfold print_b. unfold name_reserved in Hr. rewrite Hr. reflexivity.
+    - destruct (cname (b_name m)) eqn:Hc.
+      + left. repeat split. apply classic_roundtrip_single; [apply dom_plain; assumption|exact Hc].
+      + right. destruct Hd as (Hne & _). unfold print_b. unfold name_reserved in Hr. rewrite Hr.
+        unfold classic_matcher. rewrite classic_rejects_nonclassic; [reflexivity|exact Hr|exact Hne|exact Hc].
+  Qed.
+
+  Lemma classic_on_print_same m c : dom compiles m ->
+    classic_matcher compiles (print_b is_space is_print m) = Ok c -> c = m.
+  Proof. intros Hd H. destruct (classic_on_print m Hd) as [(_ & _ & E)|E]; rewrite E in H; congruence. Qed.
+
+  Lemma last_not_125 (s : list Z) : match rev (s ++ [34]) with 125 :: _ => true | _ => false end = false.
+  Proof. rewrite rev_app_distr. reflexivity. Qed.
+
+  Lemma print_ends_quote m : exists s, print_b is_space is_print m = s ++ [34].
+  Proof.
+    unfold print_b. destruct (existsb _ _).
+    - unfold go_quote. eexists. rewrite !app_comm_cons, !app_assoc. reflexivity.
+    - eexists. rewrite !app_assoc. reflexivity.
+  Qed.
+
+  Lemma print_head m : dom compiles m -> exists c tl, print_b is_space is_print m = c :: tl /\ c <> 123.
+  Proof.
+    intros (Hne & _). unfold print_b. destruct (existsb _ _) eqn:Hr.
+    - eexists _, _. split; [reflexivity|lia].
+    - destruct (b_name m) as [|c n'] eqn:En; [congruence|].
+      eexists _, _. split; [reflexivity|].
+      destruct (name_byte_facts (c :: n') [] c n') as (_ & _ & _ & H); [|reflexivity|constructor|exact H].
+      unfold name_reserved. simpl. exact Hr.
+  Qed.
+
+  Lemma print_no_brace m : dom compiles m -> has_brace (print_b is_space is_print m) = false.
+  Proof.
+    intros Hd. unfold has_brace. destruct (print_head m Hd) as (c & tl & E & Hc).
+    destruct (print_ends_quote m) as (s & Es).
+    rewrite Es at 2. rewrite last_not_125. rewrite (head_not_123 _ c tl E Hc). reflexivity.
+  Qed.
+
+  (* compat.Matcher on the printed text of one matcher, in UTF-8-strict and in fallback mode; and in classic mode
+     when the name is a classic label name that is printed bare *)
+  Lemma compat_single_roundtrip m : dom compiles m ->
+    compat_matcher is_space compiles Utf8Strict (print_b is_space is_print m) = Ok m /\
+    compat_matcher is_space compiles Fallback (print_b is_space is_print m) = Ok m.
+  Proof.
+    intros Hd. simpl. rewrite (print_no_brace m Hd).
+    unfold utf8_matcher. rewrite (g_roundtrip_single is_space is_print compiles print_lf m Hd). simpl.
+    split; [reflexivity|]. apply fallback_roundtrip_cond.
+    - pose proof (classic_matcher_fine compiles (print_b is_space is_print m)) as H. intros E. rewrite E in H. exact H.
+    - intros cv. apply classic_on_print_same, Hd.
+  Qed.
+
+(* ---------- the classic quote-aware comma split on a printed list ---------- *)
+Lemma encode_asc c : 0 <= c < 128 -> encode_rune c = [c].
+Proof. intros H. exact (encode_decode c [c] (canon_ascii_intro c H)). Qed.
+
+(* runes outside quotes that are neither a comma, a quote nor a backslash: appended, state unchanged *)
+Lemma ctok_outside G : Forall canon G -> Forall (fun x => fst x <> 44 /\ fst x <> 34 /\ fst x <> 92) G ->
+  forall rest tok, classic_tokens (G ++ rest) false false tok = classic_tokens rest false false (tok ++ raw G).
+Proof.
+  induction 1 as [|[r bs] G Hc _ IH]; intros Hs rest tok.
+  - unfold raw. simpl. rewrite app_nil_r. reflexivity.
+  - apply Forall_cons in Hs as [(H44 & H34 & H92) Hs]. simpl in H44, H34, H92. simpl app. cbn [classic_tokens]. simpl fst.
+    destruct (r =? 44) eqn:E1; [lia|]. destruct (r =? 34) eqn:E2; [lia|]. destruct (r =? 92) eqn:E3; [lia|].
+    simpl andb. cbv iota. rewrite (encode_decode r bs Hc). rewrite (IH Hs). rewrite <- app_assoc. reflexivity.
+Qed.
+
+(* inside quotes *)
+Lemma ctok_in_plain x R tok : canon x -> fst x <> 34 -> fst x <> 92 ->
+  classic_tokens (x :: R) true false tok = classic_tokens R true false (tok ++ snd x).
+Proof.
+  destruct x as [r bs]. intros Hc H34 H92. simpl in *. cbn [classic_tokens]. simpl fst.
+  rewrite andb_false_r. destruct (r =? 34) eqn:E2; [lia|]. destruct (r =? 92) eqn:E3; [lia|].
+  rewrite (encode_decode r bs Hc). destruct (r =? 44); reflexivity.
+Qed.
+
+Lemma ctok_in_esc c R tok : 0 <= c < 128 -> c <> 44 ->
+  classic_tokens (asc 92 :: asc c :: R) true false tok = classic_tokens R true false (tok ++ [92; c]).
+Proof.
+  intros Hc H44. cbn [classic_tokens]. simpl fst. change (92 =? 44) with false. change (92 =? 34) with false.
+  change (92 =? 92) with true. simpl andb. cbv iota. simpl negb.
+  destruct (c =? 44) eqn:E1; [lia|]. simpl andb. cbv iota.
+  change (encode_rune 92) with [92]. rewrite (encode_asc c Hc). rewrite <- app_assoc.
+  destruct (c =? 34); [reflexivity|]. destruct (c =? 92); reflexivity.
+Qed.
+
+Lemma ctok_in_hex l : Forall hexok l -> forall R tok,
+  classic_tokens (map asc l ++ R) true false tok = classic_tokens R true false (tok ++ l).
+Proof.
+  induction 1 as [|b l Hb _ IH]; intros R tok; [rewrite app_nil_r; reflexivity|].
+  unfold hexok in Hb. change (map asc (b :: l) ++ R) with (asc b :: (map asc l ++ R)).
+  rewrite ctok_in_plain by (try apply canon_ascii_intro; simpl; lia).
+  rewrite IH. simpl snd. rewrite <- app_assoc. reflexivity.
+Qed.
+
+Lemma ctok_group_esc x : canon x -> forall R tok,
+  classic_tokens (esc_rune x ++ R) true false tok = classic_tokens R true false (tok ++ raw (esc_rune x)).
+Proof.
+  destruct x as [r bs]. intros Hc R tok. unfold esc_rune. simpl fst.
+  destruct (r =? 92) eqn:E1; [simpl app; rewrite ctok_in_esc by lia; reflexivity|].
+  destruct (r =? 10) eqn:E2; [simpl app; rewrite ctok_in_esc by lia; reflexivity|].
+  destruct (r =? 34) eqn:E3; [simpl app; rewrite ctok_in_esc by lia; reflexivity|].
+  simpl app. rewrite ctok_in_plain by (try exact Hc; simpl; lia). unfold raw. simpl. rewrite app_nil_r. reflexivity.
+Qed.
+
+Lemma ctok_groups (g : Z * list Z -> list (Z * list Z)) V :
+  (forall x, In x V -> forall R tok, classic_tokens (g x ++ R) true false tok = classic_tokens R true false (tok ++ raw (g x))) ->
+  forall R tok, classic_tokens (flat_map g V ++ R) true false tok = classic_tokens R true false (tok ++ raw (flat_map g V)).
+Proof.
+  induction V as [|x V IH]; intros Hg R tok; [unfold raw; simpl; rewrite app_nil_r; reflexivity|].
+  simpl flat_map. rewrite <- app_assoc. rewrite (Hg x ltac:(left; reflexivity)).
+  rewrite IH by (intros y Hy; apply Hg; right; exact Hy). rewrite raw_app, app_assoc. reflexivity.
+Qed.
+
+  Notation qr := (qrunes is_print).
+
+  Lemma ctok_group_q x : canon x -> forall R tok,
+    classic_tokens (qr x ++ R) true false tok = classic_tokens R true false (tok ++ raw (qr x)).
+  Proof.
+    destruct x as [r bs]. intros Hc R tok. destruct (canon_valid r bs Hc) as [_ Hr0]. unfold qrunes. simpl fst.
+    destruct ((r =? 34) || (r =? 92)) eqn:E0.
+    { simpl app. rewrite ctok_in_esc by lia. reflexivity. }
+    apply orb_false_elim in E0 as [E34 E92].
+    destruct (is_print r) eqn:Ep.
+    { simpl app. rewrite ctok_in_plain by (try exact Hc; simpl; lia). unfold raw. simpl. rewrite app_nil_r. reflexivity. }
+    destruct (quote_rune_shape is_print r Hr0) as (c & l & -> & Hc' & Hl); [rewrite E34, E92; reflexivity|exact Ep|].
+    change (map asc (92 :: c :: l) ++ R) with (asc 92 :: asc c :: (map asc l ++ R)).
+    rewrite ctok_in_esc by lia. rewrite ctok_in_hex by exact Hl. rewrite raw_map_asc.
+    rewrite <- app_assoc. reflexivity.
+  Qed.
+
+  Lemma ctok_open rest tok : classic_tokens (asc 34 :: rest) false false tok = classic_tokens rest true false (tok ++ [34]).
+  Proof. reflexivity. Qed.
+  Lemma ctok_close rest tok : classic_tokens (asc 34 :: rest) true false tok = classic_tokens rest false false (tok ++ [34]).
+  Proof. reflexivity. Qed.
+
+  (* a quoted part: opening quote, a body of escape groups, closing quote *)
+  Lemma ctok_quoted (g : Z * list Z -> list (Z * list Z)) V rest tok :
+    (forall x, In x V -> forall R tok, classic_tokens (g x ++ R) true false tok = classic_tokens R true false (tok ++ raw (g x))) ->
+    classic_tokens (asc 34 :: flat_map g V ++ asc 34 :: rest) false false tok
+    = classic_tokens rest false false (tok ++ 34 :: raw (flat_map g V) ++ [34]).
+  Proof.
+    intros Hg. rewrite ctok_open, (ctok_groups g V Hg), ctok_close. rewrite <- !app_assoc. reflexivity.
+  Qed.
+
+  Lemma ops_outside t : Forall (fun x : Z * list Z => fst x <> 44 /\ fst x <> 34 /\ fst x <> 92) (map asc (op_bytes t)).
+  Proof. destruct t; simpl; repeat (apply List.Forall_cons; [simpl; lia|]); apply List.Forall_nil. Qed.
+
+  (* across one printed matcher no split happens and the quote state returns to "outside" *)
+  Lemma ctok_matcher m rest tok : dom compiles m ->
+    classic_tokens (grunes is_space is_print m ++ rest) false false tok
+    = classic_tokens rest false false (tok ++ print_b is_space is_print m).
+  Proof.
+    intros Hd. pose proof Hd as (Hne & Hvn & Hvv & Hre). unfold grunes.
+    destruct (name_reserved is_space m) eqn:Hr.
+    - rewrite <- (raw_qmrunes is_space is_print compiles m Hd Hr). rewrite qmrunes_shape.
+      rewrite (ctok_quoted qr) by (intros x Hx; apply ctok_group_q; exact (proj1 (List.Forall_forall _ _) (valid_decode_canon _ Hvn) x Hx)).
+      rewrite (ctok_outside _ (canon_ops _) (ops_outside _)).
+      rewrite (ctok_quoted qr) by (intros x Hx; apply ctok_group_q; exact (proj1 (List.Forall_forall _ _) (valid_decode_canon _ Hvv) x Hx)).
+      f_equal. unfold qmrunes. rewrite raw_cons_asc, raw_app, raw_cons_asc, raw_app, raw_ops, raw_cons_asc, raw_app.
+      rewrite <- !app_assoc. simpl. rewrite <- !app_assoc. reflexivity.
+    - pose proof (dom_plain is_space compiles m Hd Hr) as Hp.
+      rewrite <- (raw_mrunes is_space is_print compiles m Hp). rewrite mrunes_shape.
+      assert (HN : Forall (fun x : Z * list Z => fst x <> 44 /\ fst x <> 34 /\ fst x <> 92) (decode_all (b_name m))).
+      { unfold name_reserved in Hr. apply List.Forall_forall. intros x Hx.
+        destruct (is_reserved is_space (fst x)) eqn:E.
+        - assert (existsb (fun x => is_reserved is_space (fst x)) (decode_all (b_name m)) = true)
+            by (apply existsb_exists; exists x; split; assumption). congruence.
+        - unfold MatcherSyntax.is_reserved in E. repeat (apply orb_false_elim in E as [E ?]). lia. }
+      rewrite (ctok_outside _ (valid_decode_canon _ Hvn) HN).
+      rewrite (ctok_outside _ (canon_ops _) (ops_outside _)).
+      rewrite (ctok_quoted esc_rune) by (intros x Hx; apply ctok_group_esc; exact (proj1 (List.Forall_forall _ _) (valid_decode_canon _ Hvv) x Hx)).
+      f_equal. unfold mrunes. rewrite !raw_app, raw_ops. rewrite <- !app_assoc. reflexivity.
+  Qed.
+
+  Notation pb := (print_b is_space is_print).
+
+  (* the tokens the split produces for a printed list: (finished tokens, current token) *)
+  Fixpoint ctoks (tok : list Z) (ms : list bm) : list (list Z) * list Z :=
+    match ms with
+    | [] => ([], tok)
+    | m :: r => match r with
+                | [] => ([], tok ++ pb m)
+                | _ => let '(ts, l) := ctoks [] r in ((tok ++ pb m) :: ts, l)
+                end
+    end.
+
+  Lemma ctok_list ms : Forall (dom compiles) ms -> forall tok,
+    classic_tokens (gjr is_space is_print ms) false false tok = ctoks tok ms.
+  Proof.
+    induction 1 as [|m r Hm Hr IH]; intros tok; [reflexivity|].
+    destruct r as [|m' r'].
+    - change (gjr is_space is_print [m]) with (grunes is_space is_print m).
+      rewrite <- (app_nil_r (grunes is_space is_print m)). rewrite ctok_matcher by exact Hm. reflexivity.
+    - change (gjr is_space is_print (m :: m' :: r')) with (grunes is_space is_print m ++ asc 44 :: gjr is_space is_print (m' :: r')).
+      rewrite ctok_matcher by exact Hm.
+      change (ctoks tok (m :: m' :: r')) with (let '(ts, l) := ctoks [] (m' :: r') in ((tok ++ pb m) :: ts, l)).
+      rewrite <- IH. reflexivity.
+  Qed.
+
+  Lemma ctoks_all ms : ms <> [] -> exists ts ml, ctoks [] ms = (ts, pb ml) /\ ts ++ [pb ml] = map pb ms /\ In ml ms.
+  Proof.
+    induction ms as [|m r IH]; [congruence|]. intros _. destruct r as [|m' r'].
+    - exists [], m. repeat split. left. reflexivity.
+    - destruct (IH ltac:(discriminate)) as (ts & ml & E & Hall & Hin).
+      exists (pb m :: ts), ml. change (ctoks [] (m :: m' :: r')) with (let '(ts, l) := ctoks [] (m' :: r') in (([] ++ pb m) :: ts, l)).
+      rewrite E. repeat split; [simpl; f_equal; exact Hall|right; exact Hin].
+  Qed.
+
+  Lemma grunes_head m : dom compiles m -> exists x0 tl, grunes is_space is_print m = x0 :: tl /\ is_space (fst x0) = false.
+  Proof.
+    intros (Hne & Hvn & _). unfold grunes. destruct (name_reserved is_space m) eqn:Hr.
+    - eexists _, _. split; [reflexivity|exact quote_not_space].
+    - unfold mrunes. destruct (decode_all (b_name m)) as [|x0 N] eqn:EN.
+      { exfalso. apply Hne. rewrite <- (raw_decode_all (b_name m)), EN. reflexivity. }
+      eexists _, _. split; [reflexivity|]. unfold name_reserved in Hr. rewrite EN in Hr. simpl in Hr.
+      apply orb_false_elim in Hr as [Hr _]. unfold MatcherSyntax.is_reserved in Hr.
+      repeat (apply orb_false_elim in Hr as [Hr ?]). exact Hr.
+  Qed.
+
+  Lemma grunes_last m : exists Y, grunes is_space is_print m = Y ++ [asc 34].
+  Proof.
+    unfold grunes. destruct (name_reserved is_space m).
+    - unfold qmrunes. eexists. rewrite !app_comm_cons, !app_assoc. reflexivity.
+    - unfold mrunes. eexists. rewrite !app_assoc. reflexivity.
+  Qed.
+
+  Lemma trim_space_print m : dom compiles m -> trim_space is_space (pb m) = pb m.
+  Proof.
+    intros Hd. unfold trim_space.
+    pose proof (g_decode_print is_space is_print compiles print_lf m [] Hd) as Hdec. rewrite app_nil_r in Hdec.
+    change (decode_all []) with (@nil (Z * list Z)) in Hdec. rewrite app_nil_r in Hdec.
+    rewrite Hdec. destruct (grunes_head m Hd) as (x0 & tl & E & Hx0). destruct (grunes_last m) as (Y & EY).
+    rewrite E at 1. rewrite (dropw_head_false (fun x => is_space (fst x)) x0 tl Hx0). rewrite <- E. rewrite EY.
+    rewrite rev_app_distr. simpl rev at 1. simpl app.
+    rewrite quote_not_space. simpl rev. rewrite rev_involutive. rewrite <- EY, <- Hdec. apply raw_decode_all.
+  Qed.
+
+  Lemma print_nonempty m : pb m <> [].
+  Proof. destruct (print_ends_quote m) as (s & ->). destruct s; discriminate. Qed.
+
+  Definition bare_classic (m : bm) : Prop := name_reserved is_space m = false /\ cname (b_name m) = true.
+
+  Lemma map_res_classic ms : Forall (dom compiles) ms ->
+    (Forall bare_classic ms /\ map_res (classic_matcher compiles) (map pb ms) = Ok ms) \/
+    map_res (classic_matcher compiles) (map pb ms) = Err "bad-format".
+  Proof.
+    induction 1 as [|m r Hm _ IH]; [left; split; [constructor|reflexivity]|].
+    simpl. destruct (classic_on_print m Hm) as [(H1 & H2 & E)|E]; rewrite E; simpl.
+    - destruct IH as [[Hall E2]|E2]; rewrite E2; simpl.
+      + left. split; [constructor; [split; assumption|exact Hall]|reflexivity].
+      + right. reflexivity.
+    - right. reflexivity.
+  Qed.
+
+  Lemma last_tok (l : list Z) : l <> [] -> match l with [] => [] | _ => [l] end = [l].
+  Proof. destruct l; [congruence|reflexivity]. Qed.
+
+  Lemma trim_braces J : trim_suffix 125 (trim_prefix 123 ([123] ++ J ++ [125])) = J.
+  Proof.
+    change (trim_prefix 123 ([123] ++ J ++ [125])) with (J ++ [125]).
+    unfold trim_suffix. rewrite rev_app_distr. simpl. apply rev_involutive.
+  Qed.
+
+  Lemma map_res_classic_ok ms : Forall (dom compiles) ms -> Forall bare_classic ms ->
+    map_res (classic_matcher compiles) (map pb ms) = Ok ms.
+  Proof.
+    intros Hd Hb. destruct (map_res_classic ms Hd) as [[_ E]|E]; [exact E|]. exfalso.
+    revert E. induction Hd as [|m r Hm _ IH]; [discriminate|]. apply Forall_cons in Hb as [[H1 H2] Hb]. simpl.
+    rewrite (classic_roundtrip_single is_space is_print compiles m (dom_plain is_space compiles m Hm H1) H2). simpl.
+    destruct (map_res (classic_matcher compiles) (map pb r)) eqn:E2; simpl; try discriminate.
+    intros E. injection E as E. apply IH; [exact Hb|]. rewrite E. reflexivity.
+  Qed.
+
+  (* labels.ParseMatchers on a printed list splits it into exactly the printed matchers *)
+  Lemma classic_list_tokens ms : Forall (dom compiles) ms ->
+    classic_matchers is_space compiles (print_list_b is_space is_print ms) = map_res (classic_matcher compiles) (map pb ms).
+  Proof.
+    intros Hms. unfold classic_matchers, print_list_b. rewrite trim_braces.
+    pose proof (g_decode_join is_space is_print compiles print_lf ms [] Hms) as Hdec. rewrite app_nil_r in Hdec.
+    change (decode_all []) with (@nil (Z * list Z)) in Hdec. rewrite app_nil_r in Hdec. rewrite Hdec.
+    rewrite ctok_list by exact Hms.
+    destruct ms as [|m r]; [reflexivity|].
+    destruct (ctoks_all (m :: r) ltac:(discriminate)) as (ts & ml & E & Hall & Hin). rewrite E.
+    assert (Hml : dom compiles ml) by (exact (proj1 (List.Forall_forall _ _) Hms ml Hin)).
+    rewrite (trim_space_print ml Hml). rewrite (last_tok (pb ml) (print_nonempty ml)). rewrite Hall. reflexivity.
+  Qed.
+
+  (* ... and on the printed text of a single matcher (no braces) *)
+  Lemma classic_single_tokens m : dom compiles m ->
+    classic_matchers is_space compiles (pb m) = map_res (classic_matcher compiles) [pb m].
+  Proof.
+    intros Hm. unfold classic_matchers.
+    destruct (print_head m Hm) as (c & tl & E & Hc). destruct (print_ends_quote m) as (s & Es).
+    assert (Hp : trim_prefix 123 (pb m) = pb m).
+    { rewrite E. unfold trim_prefix. destruct (c =? 123) eqn:E1; [lia|reflexivity]. }
+    rewrite Hp.
+    assert (Hs : trim_suffix 125 (pb m) = pb m).
+    { rewrite Es. unfold trim_suffix. rewrite rev_app_distr. simpl. rewrite rev_involutive. reflexivity. }
+    rewrite Hs.
+    pose proof (g_decode_print is_space is_print compiles print_lf m [] Hm) as Hdec. rewrite app_nil_r in Hdec.
+    change (decode_all []) with (@nil (Z * list Z)) in Hdec. rewrite app_nil_r in Hdec. rewrite Hdec.
+    change (grunes is_space is_print m) with (gjr is_space is_print [m]).
+    rewrite (ctok_list [m]) by (constructor; [exact Hm|constructor]). simpl ctoks. cbv beta iota. simpl app.
+    rewrite (trim_space_print m Hm). rewrite (last_tok (pb m) (print_nonempty m)). reflexivity.
+  Qed.
+
+  Lemma classic_list_on_print ms : Forall (dom compiles) ms ->
+    (Forall bare_classic ms /\ classic_matchers is_space compiles (print_list_b is_space is_print ms) = Ok ms) \/
+    classic_matchers is_space compiles (print_list_b is_space is_print ms) = Err "bad-format".
+  Proof. intros Hms. rewrite classic_list_tokens by exact Hms. exact (map_res_classic ms Hms). Qed.
+
+  (* compat.Matchers on a printed list, in UTF-8-strict and fallback mode *)
+  Lemma compat_list_roundtrip ms : Forall (dom compiles) ms ->
+    compat_matchers is_space compiles Utf8Strict (print_list_b is_space is_print ms) = Ok ms /\
+    compat_matchers is_space compiles Fallback (print_list_b is_space is_print ms) = Ok ms.
+  Proof.
+    intros Hms. simpl. rewrite (g_roundtrip_list is_space is_print compiles print_lf ms Hms).
+    split; [reflexivity|]. apply fallback_roundtrip_cond; [apply classic_matchers_no_panic|].
+    intros cv E. destruct (classic_list_on_print ms Hms) as [[_ E2]|E2]; rewrite E2 in E; congruence.
+  Qed.
+
+  (* compat.Matchers on the printed text of one matcher *)
+  Lemma compat_list_single_roundtrip m : dom compiles m ->
+    compat_matchers is_space compiles Utf8Strict (pb m) = Ok [m] /\
+    compat_matchers is_space compiles Fallback (pb m) = Ok [m].
+  Proof.
+    intros Hm. simpl. rewrite (g_roundtrip_single is_space is_print compiles print_lf m Hm).
+    split; [reflexivity|]. apply fallback_roundtrip_cond; [apply classic_matchers_no_panic|].
+    intros cv E. rewrite classic_single_tokens in E by exact Hm. simpl in E.
+    destruct (classic_on_print m Hm) as [(_ & _ & E2)|E2]; rewrite E2 in E; simpl in E; congruence.
+  Qed.
+
+  (* classic mode: names that are classic label names (and are printed bare) *)
+  Lemma classic_list_roundtrip ms : Forall (dom compiles) ms -> Forall bare_classic ms ->
+    classic_matchers is_space compiles (print_list_b is_space is_print ms) = Ok ms /\
+    compat_matchers is_space compiles Classic (print_list_b is_space is_print ms) = Ok ms.
+  Proof.
+    intros Hd Hb. simpl. rewrite classic_list_tokens by exact Hd. rewrite map_res_classic_ok by assumption. split; reflexivity.
+  Qed.
+
+  Lemma classic_single_roundtrip m : dom compiles m -> bare_classic m ->
+    compat_matcher is_space compiles Classic (pb m) = Ok m /\ compat_matchers is_space compiles Classic (pb m) = Ok [m].
+  Proof.
+    intros Hd [H1 H2]. simpl.
+    pose proof (classic_roundtrip_single is_space is_print compiles m (dom_plain is_space compiles m Hd H1) H2) as E.
+    split; [exact E|]. rewrite classic_single_tokens by exact Hd. simpl. rewrite E. reflexivity.
+  Qed.
+
+  (* with the third fact about unicode.IsSpace - no label-name character is a space - a classic label name never
+     contains a reserved rune, so it is always printed bare *)
+  Hypothesis name_chars_not_space : forall r, is_space r = true -> name_char r = false.
+
+  Lemma cname_ascii n : cname n = true -> Forall (fun b => 0 <= b < 128) n /\ forallb name_char n = true /\ n <> [].
+  Proof.
+    destruct n as [|c r]; [discriminate|]. simpl. intros H. apply andb_true_iff in H as [Hs Hr].
+    assert (Hc : name_char c = true) by (unfold name_char; rewrite Hs; reflexivity).
+    assert (Hall : forallb name_char (c :: r) = true) by (simpl; rewrite Hc, Hr; reflexivity).
+    split; [apply forallb_name_ascii, Hall|]. split; [exact Hall|discriminate].
+  Qed.
+
+  Lemma decode_ascii n : Forall (fun b => 0 <= b < 128) n -> decode_all n = map asc n.
+  Proof.
+    intros H. pose proof (decode_all_raw (map asc n) [] (canon_map_asc n H)) as E.
+    rewrite raw_map_asc, !app_nil_r in E. exact E.
+  Qed.
+
+  Lemma cname_dom m : cname (b_name m) = true -> valid_utf8 (b_value m) = true ->
+    (is_regex (b_type m) = true -> compiles (b_value m) = true) -> dom compiles m /\ bare_classic m.
+  Proof.
+    intros Hc Hv Hre. destruct (cname_ascii _ Hc) as (Hasc & Hall & Hne).
+    assert (Hvalid : valid_utf8 (b_name m) = true).
+    { rewrite <- (raw_map_asc (b_name m)). apply valid_raw, canon_map_asc, Hasc. }
+    split; [repeat split; assumption|]. split; [|exact Hc].
+    unfold name_reserved. rewrite (decode_ascii _ Hasc).
+    destruct (existsb _ _) eqn:E; [|reflexivity]. exfalso.
+    apply existsb_exists in E as (x & Hin & Hx). apply in_map_iff in Hin as (c & <- & Hin). simpl in Hx.
+    rewrite forallb_forall in Hall. specialize (Hall c Hin).
+    unfold MatcherSyntax.is_reserved in Hx.
+    destruct (is_space c) eqn:Es. { rewrite (name_chars_not_space c Es) in Hall. discriminate. }
+    unfold name_char, name_start in Hall. simpl in Hx. lia.
+  Qed.
+End ClassicAny.
+
+
+(* ---------- the round-trip clause in all three modes, with the library contracts named ---------- *)
+(* what is assumed of unicode.IsSpace: the ASCII blanks of the RE2 class are spaces, the double quote is not, and no
+   label-name character (letter, digit, underscore, colon) is. (The harness checks these on the real tables.) *)
+Definition space_contract (is_space : Z -> bool) : Prop :=
+  (forall b, re_space b = true -> is_space b = true) /\ is_space 34 = false /\
+  (forall r, is_space r = true -> name_char r = false).
+(* what is assumed of strconv.IsPrint: the line feed is not printable *)
+Definition print_contract (is_print : Z -> bool) : Prop := is_print 10 = false.
+
+(* a matcher whose name is a classic label name *)
+Definition classic_dom (compiles : list Z -> bool) (m : bm) : Prop :=
+  cname (b_name m) = true /\ valid_utf8 (b_value m) = true /\ (is_regex (b_type m) = true -> compiles (b_value m) = true).
+
+Section AllModes.
+  Variable is_space : Z -> bool.
+  Variable is_print : Z -> bool.
+  Variable compiles : list Z -> bool.
+  Hypothesis Hpr : print_contract is_print.
+  Hypothesis Hsp : space_contract is_space.
+
+  Lemma classic_dom_dom m : classic_dom compiles m -> dom compiles m /\ bare_classic is_space m.
+  Proof.
+    intros (H1 & H2 & H3). destruct Hsp as (S1 & S2 & S3).
+    exact (cname_dom is_space is_print compiles Hpr S1 S2 S3 m H1 H2 H3).
+  Qed.
+
+  Lemma modes_single m : dom compiles m ->
+    compat_matcher is_space compiles Utf8Strict (print_b is_space is_print m) = Ok m /\
     compat_matcher is_space compiles Fallback (print_b is_space is_print m) = Ok m /\
-    compat_matcher is_space compiles Classic (print_b is_space is_print m) = Ok m /\
-    compat_matcher is_space compiles Utf8Strict (print_b is_space is_print m) = Ok m.
+    compat_matchers is_space compiles Utf8Strict (print_b is_space is_print m) = Ok [m] /\
+    compat_matchers is_space compiles Fallback (print_b is_space is_print m) = Ok [m].
   Proof.
-    intros Hp Hn. simpl. rewrite (print_no_brace m Hp Hn).
-    unfold utf8_matcher. rewrite (roundtrip_single is_space is_print compiles m Hp).
-    rewrite (classic_roundtrip_single is_space is_print compiles m Hp Hn). simpl.
-    repeat split. apply fallback_both_accept.
+    intros Hd. destruct Hsp as (S1 & S2 & S3).
+    destruct (compat_single_roundtrip is_space is_print compiles Hpr S1 S2 m Hd) as [A B].
+    destruct (compat_list_single_roundtrip is_space is_print compiles Hpr S1 S2 m Hd) as [C D]. auto.
   Qed.
-End ClassicRT2.
+
+  Lemma modes_list ms : Forall (dom compiles) ms ->
+    compat_matchers is_space compiles Utf8Strict (print_list_b is_space is_print ms) = Ok ms /\
+    compat_matchers is_space compiles Fallback (print_list_b is_space is_print ms) = Ok ms.
+  Proof. intros Hd. destruct Hsp as (S1 & S2 & S3). exact (compat_list_roundtrip is_space is_print compiles Hpr S1 S2 ms Hd). Qed.
+
+  Lemma classic_mode_single m : classic_dom compiles m ->
+    compat_matcher is_space compiles Classic (print_b is_space is_print m) = Ok m /\
+    compat_matchers is_space compiles Classic (print_b is_space is_print m) = Ok [m].
+  Proof.
+    intros Hc. destruct (classic_dom_dom m Hc) as [Hd Hb]. destruct Hsp as (S1 & S2 & S3).
+    exact (classic_single_roundtrip is_space is_print compiles Hpr S1 S2 m Hd Hb).
+  Qed.
+
+  Lemma classic_mode_list ms : Forall (classic_dom compiles) ms ->
+    compat_matchers is_space compiles Classic (print_list_b is_space is_print ms) = Ok ms.
+  Proof.
+    intros Hc. destruct Hsp as (S1 & S2 & S3).
+    apply (classic_list_roundtrip is_space is_print compiles Hpr S1 S2 ms).
+    - eapply Forall_impl; [exact Hc|]. intros m Hm. exact (proj1 (classic_dom_dom m Hm)).
+    - eapply Forall_impl; [exact Hc|]. intros m Hm. exact (proj2 (classic_dom_dom m Hm)).
+  Qed.
+
+  (* parser agreement on printed text: the classic parser returns the same matchers or rejects (never a different
+     result) *)
+  Lemma classic_never_disagrees ms : Forall (dom compiles) ms ->
+    classic_matchers is_space compiles (print_list_b is_space is_print ms) = Ok ms \/
+    classic_matchers is_space compiles (print_list_b is_space is_print ms) = Err "bad-format".
+  Proof.
+    intros Hd. destruct Hsp as (S1 & S2 & S3).
+    destruct (classic_list_on_print is_space is_print compiles Hpr S1 S2 ms Hd) as [[_ E]|E]; auto.
+  Qed.
+End AllModes.
